@@ -1,7 +1,7 @@
 (** Matchers of internal/matcher: arg, opt (matchLongOpt / matchShortOpt with their token
     surgery), options (greedy group), optsEnd. Repairs modelled: D6 (a lone "-" ends the
     option scan), D4 (a group excludes an env-backed option only after a match that recorded
-    no value). *)
+    no value), D7 (a folded token is not rewritten into one that starts with "--"). *)
 From MowCli Require Import Base.
 
 (** What a matcher needs to know about the declared options of the command *)
@@ -81,6 +81,7 @@ Section Opt.
       | Some o =>
         if oi_isbool D o then
           if negb (Nat.eqb o one) then short_loop (pre ++ [c]) value after
+          else if dashed (pre ++ value) then Skip 0     (* D7 repair: what is left would read "--..." *)
           else Matched s_true (residue (pre ++ value) after)
         else
           match value with
